@@ -38,7 +38,16 @@ def hello(sni):
     return b"\x16\x03\x01" + len(hs).to_bytes(2, "big") + hs
 
 
-def build_traces(rng, nconn):
+def relink(f, link):
+    """the same IP packet under another capture framing: Ethernet (as built), raw IP, or the 4-byte loopback header the packet parser knows (1e 00 00 00)"""
+    if link == "raw":
+        return f[14:]
+    if link == "null":
+        return b"\x1e\x00\x00\x00" + f[14:]
+    return f
+
+
+def build_traces(rng, nconn, link="eth"):
     """per crate: list of (conn id, frame bytes) in trace order, every frame unique"""
     traces = {"tcp": [], "http": [], "tls": []}
     ipid = [0]
@@ -83,7 +92,7 @@ def build_traces(rng, nconn):
             order += [c] * len(conns[c][crate])
         rng.shuffle(order)
         for c in order:
-            traces[crate].append((c, conns[c][crate][ptr[c]]))
+            traces[crate].append((c, relink(conns[c][crate][ptr[c]], link)))
             ptr[c] += 1
     return traces
 
@@ -119,18 +128,18 @@ def run(tier, v):
     r = vlib.tlc("MC_Pool", pid=PID, workers=8, env={"VERIF_SCEN": "c10_directed"}, timeout=1800)
     if r.inv_violated != "SequentialEquivalence":
         raise vlib.ToolError("anti-vacuity: the mis-routed pool model should violate SequentialEquivalence")
-    n_traces = 6 if tier == "thorough" else 2
+    n_traces = 6 if tier == "thorough" else 3
     configs = [(nw, bs) for nw in (range(1, 17) if tier == "thorough" else (1, 2, 3, 5, 8, 16)) for bs in ((1, 2, 4) if tier == "thorough" else (1, 4))]
     seq_lines, pool_lines, meta = [], [], []
     for t in range(n_traces):
-        traces = build_traces(rng, 6 + 3 * t)
+        traces = build_traces(rng, 6 + 3 * t, ("eth", "raw", "null")[t % 3])     # one capture framing per trace
         for crate, tr in traces.items():
             frames = [f.hex() for _, f in tr]
             sid = len(seq_lines)
             if crate == "tcp":
                 seq_lines.append({"id": sid, "mode": "tcp", "req": {"id": sid, "op": "frames", "frames": frames, "clock": [1700000000000] * len(frames)}})
             elif crate == "http":
-                seq_lines.append({"id": sid, "mode": "http", "req": {"id": sid, "op": "packets", "frames": frames}})
+                seq_lines.append({"id": sid, "mode": "http", "ipoff": {"eth": 14, "raw": 0, "null": 4}[("eth", "raw", "null")[t % 3]], "req": {"id": sid, "op": "packets", "frames": frames}})
             else:
                 seq_lines.append({"id": sid, "mode": "tls", "req": {"id": sid, "op": "packets", "frames": frames}})
             for (nw, bs) in configs:
@@ -163,20 +172,15 @@ def run(tier, v):
                         res.append({"conn": str(sorted([fr["out"]["src"], fr["out"]["dst"]])), "digest": digest(fr["out"]["sig"])})
             seq_res[o["id"]] = res
     # the sequential http path does not report endpoints: attribute by the frame's own endpoints
-    for l in seq_lines:
-        if l["mode"] == "http":
-            frames = l["req"]["frames"]
-            fixed = []
-            k = 0
-            out = os.path.join(wd, "seq-http.out")
     # (re-read with endpoints derived from the frame bytes)
     for o in vlib.read_ndjson(os.path.join(wd, "seq-http.out")):
-        frames = next(l for l in seq_lines if l["id"] == o["id"])["req"]["frames"]
+        sl = next(l for l in seq_lines if l["id"] == o["id"])
+        frames, ipoff = sl["req"]["frames"], sl["ipoff"]
         res = []
         for fh, fr in zip(frames, o["out"]):
             if fr["r"] != "ok":
                 continue
-            b = bytes.fromhex(fh)
+            b = bytes(14 - ipoff) + bytes.fromhex(fh)       # align the IP header at offset 14 whatever the framing
             a = "%d.%d.%d.%d|%d" % (b[26], b[27], b[28], b[29], (b[34] << 8) | b[35])
             z = "%d.%d.%d.%d|%d" % (b[30], b[31], b[32], b[33], (b[36] << 8) | b[37])
             for k in ("req", "resp"):
@@ -199,8 +203,9 @@ def run(tier, v):
                 continue
             if o["timed_out"]:
                 raise vlib.ToolError("pool run %d did not drain within 30 s" % o["id"])
-            if any(x != "queued" for x in o["outcomes"][0]):
-                raise vlib.ToolError("a dispatch was dropped although the queues cannot overflow (run %d)" % o["id"])
+            # the queues (4096) are far longer than any trace here, so a dropped dispatch is not an overflow: it is a packet the
+            # pool refuses to route, and its sequential results will be missing below
+            m["refused"] = sum(1 for x in o["outcomes"][0] if x != "queued")
             par = []
             for r_ in o["results"]:
                 c, d = conn_of_result(m["crate"], r_)
